@@ -25,6 +25,9 @@ func amountVariants() []gen.Amount {
 			out = append(out, gen.Amount{Kind: "last", Last: n})
 		}
 	}
+	// multi-digit amounts far beyond any len(A)
+	out = append(out, gen.Amount{Kind: "top", Take: 12}, gen.Amount{Kind: "take", Take: 1000000}, gen.Amount{Kind: "skip", Skip: 10},
+		gen.Amount{Kind: "last", Last: 100}, gen.Amount{Kind: "skiptake", Skip: 1, Take: 10}, gen.Amount{Kind: "skiptake", Skip: 12, Take: 1})
 	for s := 0; s <= 4; s++ {
 		for t := 0; t <= 4; t++ {
 			out = append(out, gen.Amount{Kind: "skiptake", Skip: s, Take: t})
